@@ -37,6 +37,254 @@ fn seal_at(layer: Layer, p: P, key: &KeyMat, rng: &mut Rng, msg: &str, footer: O
     }
 }
 
+
+// ==========================================================================================
+// parser sessions (one parser object, several parses under changing key / footer / assertion)
+// ==========================================================================================
+#[derive(Clone, Debug, Serialize, Deserialize)]
+pub struct SessionCase {
+    pub prop: String,
+    pub p: P,
+    pub batteries: bool,
+    pub default_parser: bool,
+    pub keys: Vec<KeyMat>,
+    pub footer: Option<String>,
+    pub ia: Option<String>,
+    pub steps: Vec<PStep>,
+    /// expected acceptance of each Parse step, in order
+    pub expect: Vec<bool>,
+    pub what: Vec<String>,
+}
+
+pub fn session_eval(c: &SessionCase, r: &mut Report) {
+    let cfg = ParserCfg { footer: c.footer.clone(), assertion: c.ia.clone(), default_parser: c.default_parser, ..Default::default() };
+    let outs = session(c.p, c.batteries, &c.keys, &cfg, &c.steps);
+    let tag = format!("{}/{}", c.p.name(), if c.batteries { if c.default_parser { "batteries-default" } else { "batteries" } } else { "generic" });
+    if outs.len() != c.expect.len() {
+        r.inconclusive.push(format!("{} session on {}: {} outcomes for {} parses ({:?})", c.prop, tag, outs.len(), c.expect.len(), outs.first().map(|o| o.brief())));
+        return;
+    }
+    for (i, (o, want)) in outs.iter().zip(&c.expect).enumerate() {
+        r.evaluations += 1;
+        let replay = json!({"cmd": format!("{}-session", c.prop), "case": c});
+        match (o, want) {
+            (Out::Panic(loc), _) => r.violation(format!("{} panic {} session", c.prop, tag), format!("{} session parse #{} ({}): panic {}", tag, i + 1, c.what[i], loc), replay),
+            (Out::Ok(_), false) => r.violation(
+                format!("{} session-accepts-what-a-fresh-parser-rejects {}", c.prop, tag),
+                format!("{}: ONE parser object, parse #{} ({}) was ACCEPTED; history: {:?}", tag, i + 1, c.what[i], &c.what[..=i]),
+                replay,
+            ),
+            (Out::Err(e), true) => r.violation(
+                format!("{} session-rejects-what-a-fresh-parser-accepts {} err={}", c.prop, tag, e),
+                format!("{}: ONE parser object, parse #{} ({}) was REJECTED with {}; history: {:?}", tag, i + 1, c.what[i], e, &c.what[..=i]),
+                replay,
+            ),
+            _ => {
+                r.count(&format!("{} session parses as expected", tag));
+                r.distinct(format!("{}|session|{}|{}", tag, i, want));
+            }
+        }
+    }
+    if r.samples.len() < 9 && c.p == P::V4L {
+        r.sample(json!({"parser": tag, "one_parser_history": c.what, "expected_acceptance": c.expect, "observed": outs.iter().map(|o| o.class()).collect::<Vec<_>>()}));
+    }
+}
+
+pub fn replay_session(case: &Value) -> Report {
+    let mut r = Report::new();
+    match serde_json::from_value::<SessionCase>(case.clone()) {
+        Ok(c) => session_eval(&c, &mut r),
+        Err(e) => r.inconclusive.push(format!("cannot decode session case: {}", e)),
+    }
+    r
+}
+
+fn json_token(p: P, key: &KeyMat, n: usize, footer: Option<&str>, ia: Option<&str>) -> Option<String> {
+    let ops = vec![ClaimOp::Set(Claim::Custom("data".into(), json!(format!("session token {}", n)))), ClaimOp::Set(Claim::Exp("2999-01-01T00:00:00+00:00".into()))];
+    generic_seal(p, key, &ops, footer, if p.has_assertion() { ia } else { None }).0.ok().cloned()
+}
+
+/// C04 sessions: the same parser is handed the same token under the right and under another key, in turn
+pub fn c04_sessions(pools: &Pools, r: &mut Report) {
+    for &p in &ALL {
+        if pools.count(p) < 2 {
+            r.inconclusive.push(format!("C04 sessions need two keys for {}", p.name()));
+            continue;
+        }
+        let keys = vec![pools.key(p, 0), pools.key(p, 1)];
+        for (batteries, dp) in [(false, false), (true, false), (true, true)] {
+            let (t0, t1) = match (json_token(p, &keys[0], 0, Some("ftr"), Some("ia")), json_token(p, &keys[1], 1, Some("ftr"), Some("ia"))) {
+                (Some(a), Some(b)) => (a, b),
+                _ => {
+                    r.inconclusive.push(format!("C04 sessions: cannot build tokens for {}", p.name()));
+                    continue;
+                }
+            };
+            let plan: Vec<(&String, usize, bool, &str)> = vec![
+                (&t0, 0, true, "token0 under its own key0"),
+                (&t0, 1, false, "the SAME token0 under key1"),
+                (&t0, 0, true, "token0 under key0 again"),
+                (&t1, 0, false, "token1 under key0"),
+                (&t1, 1, true, "token1 under its own key1"),
+                (&t0, 1, false, "token0 under key1 again"),
+                (&t1, 0, false, "token1 under key0 again"),
+            ];
+            let c = SessionCase {
+                prop: "C04".into(),
+                p,
+                batteries,
+                default_parser: dp,
+                keys: keys.clone(),
+                footer: Some("ftr".into()),
+                ia: if p.has_assertion() { Some("ia".into()) } else { None },
+                steps: plan.iter().map(|(t, k, _, _)| PStep::Parse { token: (*t).clone(), key: *k }).collect(),
+                expect: plan.iter().map(|x| x.2).collect(),
+                what: plan.iter().map(|x| x.3.to_string()).collect(),
+            };
+            session_eval(&c, r);
+        }
+    }
+}
+
+/// C05 sessions: one parser, the expected footer is changed between parses
+pub fn c05_sessions(pools: &Pools, r: &mut Report) {
+    for &p in &ALL {
+        let key = pools.key(p, 0);
+        for (batteries, dp) in [(false, false), (true, false), (true, true)] {
+            let (tf, tg, tn) = match (json_token(p, &key, 0, Some("footer-F"), None), json_token(p, &key, 1, Some("footer-G"), None), json_token(p, &key, 2, None, None)) {
+                (Some(a), Some(b), Some(c)) => (a, b, c),
+                _ => {
+                    r.inconclusive.push(format!("C05 sessions: cannot build tokens for {}", p.name()));
+                    continue;
+                }
+            };
+            let mut steps = Vec::new();
+            let mut expect = Vec::new();
+            let mut what = Vec::new();
+            let mut step = |s: PStep, e: Option<bool>, w: &str| {
+                if let Some(e) = e {
+                    expect.push(e);
+                    what.push(w.to_string());
+                }
+                steps.push(s);
+            };
+            step(PStep::SetFooter("footer-F".into()), None, "");
+            step(PStep::Parse { token: tf.clone(), key: 0 }, Some(true), "expect F, token with F");
+            step(PStep::SetFooter("footer-G".into()), None, "");
+            step(PStep::Parse { token: tf.clone(), key: 0 }, Some(false), "expectation changed to G, the SAME token with F");
+            step(PStep::Parse { token: tg.clone(), key: 0 }, Some(true), "expect G, token with G");
+            step(PStep::SetFooter("footer-F".into()), None, "");
+            step(PStep::Parse { token: tg.clone(), key: 0 }, Some(false), "expectation changed back to F, token with G");
+            step(PStep::Parse { token: tf.clone(), key: 0 }, Some(true), "expect F, token with F again");
+            step(PStep::Parse { token: tn.clone(), key: 0 }, Some(false), "expect F, footer-less token");
+            step(PStep::SetFooter("".into()), None, "");
+            step(PStep::Parse { token: tn.clone(), key: 0 }, Some(true), "expectation cleared, footer-less token");
+            step(PStep::Parse { token: tf.clone(), key: 0 }, Some(false), "expectation cleared, token with F");
+            let c = SessionCase { prop: "C05".into(), p, batteries, default_parser: dp, keys: vec![key.clone()], footer: None, ia: None, steps, expect, what };
+            session_eval(&c, r);
+        }
+    }
+}
+
+/// C06 sessions: one parser, the implicit assertion is changed between parses
+pub fn c06_sessions(pools: &Pools, r: &mut Report) {
+    for &p in &[P::V3L, P::V4L, P::V3P, P::V4P] {
+        let key = pools.key(p, 0);
+        for (batteries, dp) in [(false, false), (true, false), (true, true)] {
+            for footer in [None, Some("ftr")] {
+                let (ta, tb, tn) = match (json_token(p, &key, 0, footer, Some("assertion-A")), json_token(p, &key, 1, footer, Some("assertion-B")), json_token(p, &key, 2, footer, None)) {
+                    (Some(a), Some(b), Some(c)) => (a, b, c),
+                    _ => {
+                        r.inconclusive.push(format!("C06 sessions: cannot build tokens for {}", p.name()));
+                        continue;
+                    }
+                };
+                let mut steps = Vec::new();
+                let mut expect = Vec::new();
+                let mut what = Vec::new();
+                let mut step = |s: PStep, e: Option<bool>, w: &str| {
+                    if let Some(e) = e {
+                        expect.push(e);
+                        what.push(w.to_string());
+                    }
+                    steps.push(s);
+                };
+                step(PStep::SetAssertion("assertion-A".into()), None, "");
+                step(PStep::Parse { token: ta.clone(), key: 0 }, Some(true), "assert A, token built with A");
+                step(PStep::SetAssertion("assertion-B".into()), None, "");
+                step(PStep::Parse { token: ta.clone(), key: 0 }, Some(false), "assertion changed to B, the SAME token built with A");
+                step(PStep::Parse { token: tb.clone(), key: 0 }, Some(true), "assert B, token built with B");
+                step(PStep::SetAssertion("assertion-".into()), None, "");
+                step(PStep::Parse { token: ta.clone(), key: 0 }, Some(false), "assertion changed to a prefix of A, token built with A");
+                step(PStep::SetAssertion("".into()), None, "");
+                step(PStep::Parse { token: ta.clone(), key: 0 }, Some(false), "assertion cleared, token built with A");
+                step(PStep::Parse { token: tn.clone(), key: 0 }, Some(true), "assertion cleared, token built without");
+                step(PStep::SetAssertion("assertion-A".into()), None, "");
+                step(PStep::Parse { token: tn.clone(), key: 0 }, Some(false), "assert A, token built without");
+                step(PStep::Parse { token: ta.clone(), key: 0 }, Some(true), "assert A, token built with A again");
+                let c = SessionCase { prop: "C06".into(), p, batteries, default_parser: dp, keys: vec![key.clone()], footer: footer.map(|s| s.to_string()), ia: None, steps, expect, what };
+                session_eval(&c, r);
+            }
+        }
+    }
+}
+
+/// builders used more than once: every token must carry the footer / be bound to the assertion that was set
+pub fn builder_reuse(prop: &str, pools: &Pools, r: &mut Report) {
+    let protos: Vec<P> = if prop == "C06" { vec![P::V3L, P::V4L, P::V3P, P::V4P] } else { ALL.to_vec() };
+    for &p in &protos {
+        let key = pools.key(p, 0);
+        let footer = "reused-footer";
+        let ia = if p.has_assertion() { Some("reused-assertion") } else { None };
+        let claims = vec![ClaimOp::Set(Claim::Custom("data".into(), json!("reuse")))];
+        for layer in [Layer::Generic, Layer::Batteries] {
+            let toks: Vec<Out<String>> = if layer == Layer::Generic {
+                generic_seal_many(p, &key, &claims, Some(footer), ia, 3, true)
+            } else {
+                let mut ops = vec![BOp::Set(Claim::Custom("data".into(), json!("reuse"))), BOp::Footer(footer.into())];
+                if let Some(a) = ia {
+                    ops.push(BOp::Assertion(a.into()));
+                }
+                ops.extend([BOp::Build, BOp::Build, BOp::Build]);
+                batteries_run(p, &key, &ops)
+            };
+            for (n, t) in toks.iter().enumerate() {
+                r.evaluations += 1;
+                let tag = format!("{}/{}", p.name(), layer.name());
+                let replay = json!({"cmd": format!("{}-reuse", prop), "note": "builder-reuse case: re-run the check", "p": p.name(), "layer": layer.name(), "build_no": n + 1});
+                let tok = match t {
+                    Out::Ok(t) => t,
+                    o => {
+                        r.violation(format!("{} builder-reuse build-failed {}", prop, tag), format!("{}: build #{} from one builder failed: {}", tag, n + 1, o.brief()), replay);
+                        continue;
+                    }
+                };
+                let segs: Vec<&str> = tok.split('.').collect();
+                let seg_ok = segs.len() == 4 && segs[3] == util::b64(footer.as_bytes());
+                let opens = open_any(layer, p, &key, tok, Some(footer), ia).is_ok();
+                let opens_without_footer = open_any(layer, p, &key, tok, None, ia).is_ok();
+                let opens_without_ia = ia.is_some() && open_any(layer, p, &key, tok, Some(footer), None).is_ok();
+                if prop == "C05" && (!seg_ok || !opens || opens_without_footer) {
+                    r.violation(
+                        format!("C05 builder-reuse footer-lost {} build={}", tag, if n == 0 { "first" } else { "later" }),
+                        format!("{}: build #{} from ONE builder that was given footer {:?}: footer segment exact = {}, opens with the footer = {}, opens without = {}", tag, n + 1, footer, seg_ok, opens, opens_without_footer),
+                        replay,
+                    );
+                } else if prop == "C06" && (!opens || opens_without_ia) {
+                    r.violation(
+                        format!("C06 builder-reuse assertion-lost {} build={}", tag, if n == 0 { "first" } else { "later" }),
+                        format!("{}: build #{} from ONE builder that was given assertion {:?}: opens with it = {}, opens without it = {}", tag, n + 1, ia, opens, opens_without_ia),
+                        replay,
+                    );
+                } else {
+                    r.count(&format!("{} builder reused: token #{} bound as configured", tag, n + 1));
+                    r.distinct(format!("{}|reuse|{}", tag, n));
+                }
+            }
+        }
+    }
+}
+
 // ==========================================================================================
 // C04
 // ==========================================================================================
@@ -185,10 +433,15 @@ pub fn run_c04(tier: &str, seed: u64) -> Report {
         }
     });
     total.merge(r);
+    let mut rs = Report::new();
+    c04_sessions(&pools, &mut rs);
+    total.merge(rs);
     for &p in &ALL {
         for l in LAYERS {
             total.require(&format!("{}/{} rejected", p.name(), l.name()), 100);
         }
+        total.require(&format!("{}/generic session parses as expected", p.name()), 7);
+        total.require(&format!("{}/batteries session parses as expected", p.name()), 7);
     }
     total
 }
@@ -347,6 +600,34 @@ pub fn run_c05(tier: &str, seed: u64) -> Report {
             if segs[3].len() > 1 {
                 edits.push((format!("{}.{}", base, &segs[3][..segs[3].len() - 1]), f.clone(), "footer-segment-truncated"));
             }
+            // non-canonical encodings of the SAME footer bytes: padding, non-zero trailing bits, standard alphabet
+            for pad in ["=", "==", "==="] {
+                edits.push((format!("{}.{}{}", base, segs[3], pad), f.clone(), "footer-segment-padded"));
+            }
+            let rem = segs[3].len() % 4;
+            if rem == 2 || rem == 3 {
+                let chars: Vec<char> = segs[3].chars().collect();
+                let last = *chars.last().unwrap();
+                if let Some(idx) = util::B64.iter().position(|&c| c as char == last) {
+                    let free = if rem == 2 { 16 } else { 4 };
+                    for k in 1..free {
+                        let alt = util::B64[(idx & !(free - 1)) | k] as char;
+                        if alt != last {
+                            let mut c2 = chars.clone();
+                            *c2.last_mut().unwrap() = alt;
+                            edits.push((format!("{}.{}", base, c2.into_iter().collect::<String>()), f.clone(), "footer-segment-trailing-bits"));
+                        }
+                    }
+                }
+            }
+            let std_alpha = segs[3].replace('-', "+").replace('_', "/");
+            if std_alpha != segs[3] {
+                edits.push((format!("{}.{}", base, std_alpha), f.clone(), "footer-segment-std-alphabet"));
+            }
+            for n in [64usize, 256, 512, 65536] {
+                let fill: String = std::iter::repeat('A').take(n).collect();
+                edits.push((format!("{}.{}{}", base, segs[3], fill), f.clone(), "footer-segment-long-extension"));
+            }
             for (tok, sup, class) in edits {
                 let c = C05Case { p, layer, key: key.clone(), built_footer: f.clone(), supplied_footer: sup, ia: ia.map(|s| s.to_string()), token: tok, class: class.into() };
                 c05_eval(&c, r);
@@ -359,7 +640,14 @@ pub fn run_c05(tier: &str, seed: u64) -> Report {
         }
     });
     total.merge(r);
+    let mut rs = Report::new();
+    c05_sessions(&pools, &mut rs);
+    builder_reuse("C05", &pools, &mut rs);
+    total.merge(rs);
     for &p in &ALL {
+        total.require(&format!("{}/generic session parses as expected", p.name()), 8);
+        total.require(&format!("{}/generic builder reused: token #3 bound as configured", p.name()), 1);
+        total.require(&format!("{}/batteries builder reused: token #3 bound as configured", p.name()), 1);
         for l in LAYERS {
             total.require(&format!("{}/{} accepted-equal-footer", p.name(), l.name()), 30);
             total.require(&format!("{}/{} rejected-different-footer", p.name(), l.name()), 100);
@@ -584,7 +872,13 @@ pub fn run_c06(tier: &str, seed: u64) -> Report {
         }
     }
     total.merge(r);
+    let mut rs = Report::new();
+    c06_sessions(&pools, &mut rs);
+    builder_reuse("C06", &pools, &mut rs);
+    total.merge(rs);
     for &p in &protos {
+        total.require(&format!("{}/generic session parses as expected", p.name()), 16);
+        total.require(&format!("{}/batteries builder reused: token #3 bound as configured", p.name()), 1);
         for l in LAYERS {
             total.require(&format!("{}/{} accepted-equal-assertion", p.name(), l.name()), 30);
             total.require(&format!("{}/{} rejected-different-assertion", p.name(), l.name()), 100);
@@ -657,7 +951,7 @@ pub fn run_c07(tier: &str, seed: u64) -> Report {
         total.inconclusive.push("no RSA key fixtures found".into());
         return total;
     }
-    let ntok = if thorough { 100 } else { 10 };
+    let ntok = if thorough { 150 } else { 30 };
     let mut items: Vec<(P, P)> = Vec::new();
     for &x in &ALL {
         for &y in &ALL {
@@ -680,7 +974,14 @@ pub fn run_c07(tier: &str, seed: u64) -> Report {
             };
             let footer = [None, Some("ftr")][t % 2];
             let ia = if x.has_assertion() && t % 3 == 0 { Some("ia") } else { None };
-            let msg = if t % 2 == 0 { JSON_MSG.to_string() } else { format!("{{\"n\":\"{}\"}}", "m".repeat(t * 7 % 150)) };
+            // message lengths: the bodies of foreign tokens line up with Y's nonce/tag/signature layout at particular lengths
+            // (empty, 16, 24, 32, 40, 48, 64 ... bytes), so those are driven explicitly besides JSON messages
+            const EDGE: [usize; 10] = [0, 1, 16, 24, 32, 40, 48, 64, 80, 96];
+            let msg = match t % 3 {
+                0 => JSON_MSG.to_string(),
+                1 => "x".repeat(EDGE[(t / 3) % EDGE.len()]),
+                _ => format!("{{\"n\":\"{}\"}}", "m".repeat(t * 7 % 150)),
+            };
             let token = match core_seal(x, &xkey, &rng.bytes(32), &msg, footer, ia).0 {
                 Out::Ok(t) => t,
                 o => {
@@ -688,6 +989,14 @@ pub fn run_c07(tier: &str, seed: u64) -> Report {
                     continue;
                 }
             };
+            // the token is first accepted by its OWN protocol (as in real use: a verified token is replayed elsewhere)
+            match core_open(x, &xkey, &token, footer, ia).0 {
+                Out::Ok(m) if m == msg => r.count("authentic tokens first opened by their own protocol"),
+                o => {
+                    r.inconclusive.push(format!("{} token does not open under its own protocol (see C01/C02): {}", x.name(), o.brief()));
+                    continue;
+                }
+            }
             // candidate keys for Y
             let mut ykeys: Vec<(KeyMat, &str)> = Vec::new();
             match y {
@@ -756,4 +1065,4 @@ pub fn replay_c07(case: &Value) -> Report {
     r
 }
 
-pub const RULE_C07: &str = "all 56 ordered pairs (X,Y) of the 8 protocols (exhaustive) x 10 (thorough 100) authentic X tokens (footer none/text, assertion none/text, two message shapes) x {verbatim, header text rewritten to Y's} x {core, generic, batteries} entry points of Y, with key material shared wherever the types allow (same 32 bytes for v1-v4 local, same Ed25519 pair for v2/v4 public, symmetric key bytes reused as Ed25519 public key and as P-384 x-coordinate, public key bytes reused as symmetric key) and Y's own pool key otherwise; oracle: any Ok is a violation. distinct_nontrivial = distinct (X, Y, layer, verbatim|relabelled + key class, rejection variant)";
+pub const RULE_C07: &str = "all 56 ordered pairs (X,Y) of the 8 protocols (exhaustive) x 30 (thorough 150) authentic X tokens (footer none/text, assertion none/text; JSON messages and messages of 0,1,16,24,32,40,48,64,80,96 bytes so that foreign bodies line up with Y's nonce/tag/signature layout), each first opened by its own protocol, x {verbatim, header text rewritten to Y's} x {core, generic, batteries} entry points of Y, with key material shared wherever the types allow (same 32 bytes for v1-v4 local, same Ed25519 pair for v2/v4 public, symmetric key bytes reused as Ed25519 public key and as P-384 x-coordinate, public key bytes reused as symmetric key) and Y's own pool key otherwise; oracle: any Ok is a violation. distinct_nontrivial = distinct (X, Y, layer, verbatim|relabelled + key class, rejection variant)";
